@@ -15,6 +15,9 @@
   `C08_close_unguarded`) with the witnesses `C08_close_skipped_witness`, `C08_close_during_handshake_witness`; the legacy
   SSE client's `start` stage (`C08_sse_start_bounded`, folded into `selCtx` / `selClosed` of `factsOf … .sse`) with
   `C08_detached_wait_witness`, `C08_wait_without_close_case_witness`.
+  Retrying clients: the back-off is part of the call's wait (`C08_backoff_selects_ctx`, folded into `selCtx`;
+  `C08_backoff_sleep_witness`).  Requests of the server on the client side: the answer POST is a ledger resource
+  (`St.answerPost`, fact `answerBound`, `C08_answer_posts_bound`, `C08_answer_post_outlives_close_witness`).
   Server-issued requests: `C08_server_pending_released` (instance `C08_server_inserts_deferred`) with
   `C08_server_pending_leak_witness`.
 -/
@@ -127,16 +130,17 @@ def ProcInv (f : Facts) (cfg : Cfg) (s : St) : Prop :=
   ((cfg.t.http && cfg.getSSE) = false → s.stream = false ∧ s.starter = false) ∧
   (cfg.t = .stdio → s.closing = true → s.tctx = true) ∧
   (cfg.t = .stdio → f.exitCancels = true → s.watcher = false → s.tctx = true) ∧
-  (cfg.t = .sse → f.endCloses = true → s.reader = false → s.closed = true)
+  (cfg.t = .sse → f.endCloses = true → s.reader = false → s.closed = true) ∧
+  (f.answerBound = true → s.closing = true → s.answerPost = false)
 
 private theorem proc_init (f : Facts) (cfg : Cfg) : ProcInv f cfg (init cfg) := by
   cases cfg with | mk t h g => cases t <;> cases g <;> simp [ProcInv, init, Transport.shared, Transport.http]
 
 private theorem proc_step (f : Facts) (cfg : Cfg) (s s' : St) (e : Ev)
     (h : ProcInv f cfg s) (hs : step f cfg s e = some s') : ProcInv f cfg s' := by
-  obtain ⟨h1, h2, h3, h4, h5, h6, h7, h8, h9, h10, h11⟩ := h
+  obtain ⟨h1, h2, h3, h4, h5, h6, h7, h8, h9, h10, h11, h12⟩ := h
   step_cases hs
-  all_goals (try (exact ⟨h1, h2, h3, h4, h5, h6, h7, h8, h9, h10, h11⟩))
+  all_goals (try (exact ⟨h1, h2, h3, h4, h5, h6, h7, h8, h9, h10, h11, h12⟩))
   all_goals (simp only [ProcInv])
   all_goals (try (cases hT : cfg.t <;> simp_all [Transport.shared, Transport.http]; done))
   · cases hc : s.closing <;> cases hT : cfg.t <;> simp_all [Transport.shared, Transport.http]
@@ -307,7 +311,7 @@ private theorem returns_core (f : Facts) (cfg : Cfg) (hsel : SelOk f cfg.t)
     · have hslot : (s.calls c).slot = false := by simpa using hslot
       cases hrd : s.reader with
       | false =>
-        have hcl : s.closed = true := hp.2.2.2.2.2.2.2.2.2.2 ht hE hrd
+        have hcl : s.closed = true := hp.2.2.2.2.2.2.2.2.2.2.1 ht hE hrd
         have hnt : (s.calls c).inTable = false := (hch c).2.1 hsh hcl
         have hcc : (s.calls c).chClosed = true := by
           rcases (hch c).1 hT hsh hw with x | x
@@ -316,7 +320,8 @@ private theorem returns_core (f : Facts) (cfg : Cfg) (hsel : SelOk f cfg.t)
         exact direct .closedChan (by simp) (fun _ => hR) (by simp [ready, hS, hcc, hslot])
       | true =>
         have hdown : s.streamDown = true := by simpa [happened] using hh
-        let s1 : St := { s with reader := false, closing := true, closed := true, streamDown := true, calls := fun d => closeChans (s.calls d) }
+        let s1 : St := { s with reader := false, closing := true, closed := true, streamDown := true, calls := fun d => closeChans (s.calls d),
+                                answerPost := s.answerPost && !f.answerBound }
         have hs1 : step f cfg s .readerExit = some s1 := by simp [step, hrd, hdown, hE, ht, s1]
         obtain ⟨c1, c2, _, c4, _, _, _, _, c9⟩ := closeChans_fields (s.calls c)
         have hw1 : waiting (s1.calls c) = true := by simpa [s1, waiting, c1, c2] using hw
@@ -450,12 +455,13 @@ theorem C08_ledger_partial (f : Facts) (cfg : Cfg)
     s.reader = false ∧ s.child = false ∧
     (f.bodyClosed = true → ∀ c, (s.calls c).body = false) ∧
     (f.oneWait = true → s.watcher = false ∧ s.closeWaiter = false) ∧
-    ((f.startGuarded = true ∨ (cfg.t.http && cfg.getSSE) = false) → s.stream = false) := by
+    ((f.startGuarded = true ∨ (cfg.t.http && cfg.getSSE) = false) → s.stream = false) ∧
+    (f.answerBound = true → s.answerPost = false) := by
   obtain ⟨hp, _, _, hb⟩ := all_reach f cfg evs s hr
-  obtain ⟨h1, _, _, h4, _, _, h7, h8, _, _, _⟩ := hp
+  obtain ⟨h1, _, _, h4, _, _, h7, h8, _, _, _, h12⟩ := hp
   obtain ⟨hall, hre, hwe, _, _⟩ := hq
   have hchild : s.child = false := h1 hc
-  refine ⟨?_, hchild, ?_, ?_, ?_⟩
+  refine ⟨?_, hchild, ?_, ?_, ?_, fun ha => h12 ha hc⟩
   · cases hrd : s.reader with
     | false => rfl
     | true => simp [step, hrd, hc] at hre; split at hre <;> simp at hre
@@ -474,17 +480,18 @@ theorem C08_ledger_partial (f : Facts) (cfg : Cfg)
     · exact h7 x hc
     · exact (h8 x).1
 
-/-- **Ledger zero after Close.** In the region "every body closed, one `Cmd.Wait`, guarded stream start": for every
+/-- **Ledger zero after Close.** In the region "every body closed, one `Cmd.Wait`, guarded stream start, answer POSTs bound
+    to the stream's context": for every
     schedule, once Close() has completed and the state is quiescent (every issued call has returned, no library goroutine
     can take a step, the stream starter has run), nothing is left: no response body, no reader, no child, nobody in
-    `Cmd.Wait`, no listening stream. -/
+    `Cmd.Wait`, no listening stream, no POST with an answer to the server in flight. -/
 theorem C08_ledger_zero_after_close (f : Facts) (cfg : Cfg)
-    (hb : f.bodyClosed = true) (hw : f.oneWait = true) (hg : f.startGuarded = true)
+    (hb : f.bodyClosed = true) (hw : f.oneWait = true) (hg : f.startGuarded = true) (ha : f.answerBound = true)
     (evs : List Ev) (s : St) (hr : run f cfg (init cfg) evs = some s)
     (hc : s.closed = true) (hq : quiescent f cfg s) : ledgerZero s := by
   have hcl : s.closing = true := (all_reach f cfg evs s hr).1.2.1 hc
-  obtain ⟨a, b, c, d, e⟩ := C08_ledger_partial f cfg evs s hr hcl hq
-  exact ⟨c hb, a, b, (d hw).1, (d hw).2, e (Or.inl hg)⟩
+  obtain ⟨a, b, c, d, e, g⟩ := C08_ledger_partial f cfg evs s hr hcl hq
+  exact ⟨c hb, a, b, (d hw).1, (d hw).2, e (Or.inl hg), g ha⟩
 
 /-- **Close takes effect whatever the client's state.** With `closeAny` (Close() reaches `transport.close()` under no
     condition but `transport != nil`), in every reachable state in which Close has not begun — in particular after a
@@ -534,6 +541,18 @@ theorem C08_detached_wait_witness :
   refine ⟨_, rfl, by decide, ?_, ⟨_, rfl, by decide⟩⟩
   intro k; cases k <;> decide
 
+/-- Witness for a back-off that sleeps (`time.Sleep(backoff)` between two attempts of a retrying client instead of a select
+    over {timer, caller's context}): the call is between two attempts, its caller's context ends, and no case of its wait is
+    ready; it moves again only when the back-off timer fires — and returns the context's error then. -/
+theorem C08_backoff_sleep_witness :
+    ∃ s, run { Facts.allGood with selCtx := false } { t := .streamJson } (init { t := .streamJson })
+        [.issue 0, .ctxDone 0] = some s ∧ (s.calls 0).ctxDone = true ∧
+      (∀ k, step { Facts.allGood with selCtx := false } { t := .streamJson } s (.complete 0 k) = none) ∧
+      ∃ s', run { Facts.allGood with selCtx := false } { t := .streamJson } s
+        [.timeout 0, .complete 0 .timeout] = some s' ∧ (s'.calls 0).returned = some .err := by
+  refine ⟨_, rfl, by decide, ?_, ⟨_, rfl, by decide⟩⟩
+  intro k; cases k <;> decide
+
 /-- Witness for a wait without a case that ends on Close() (the legacy SSE handshake's wait for the endpoint event as it was
     before /repo 3e0df05: a select over the endpoint event, the caller's context and a timer; finding
     `calls:sse:close_does_not_end_initialize_before_endpoint_event`): Close() runs to completion, closes the call's channel
@@ -547,6 +566,15 @@ theorem C08_wait_without_close_case_witness :
         [.ctxDone 0, .complete 0 .ctx] = some s' ∧ (s'.calls 0).returned = some .err := by
   refine ⟨_, rfl, by decide, by decide, by decide, ?_, ⟨_, rfl, by decide⟩⟩
   intro k; cases k <;> decide
+
+/-- Witness for an answer POST made with a context detached from the stream's: the server's request arrives on the listening
+    stream, the reader starts the POST with the client's answer, the peer stalls on it; Close() completes, everything else
+    is quiescent — the POST (its goroutine and connection) is still there, until the peer responds or its own timer fires. -/
+theorem C08_answer_post_outlives_close_witness :
+    ∃ s, run { Facts.allGood with answerBound := false } { t := .streamJson, getSSE := true } (init { t := .streamJson, getSSE := true })
+        [.starterRun, .srvRequest, .closeBegin, .closeEnd] = some s ∧ s.closed = true ∧ s.stream = false ∧ s.answerPost = true ∧
+      ∃ s', step { Facts.allGood with answerBound := false } { t := .streamJson, getSSE := true } s .answerDone = some s' ∧ s'.answerPost = false := by
+  refine ⟨_, rfl, by decide, by decide, by decide, ⟨_, rfl, by decide⟩⟩
 
 /-- Witness for a body that is not closed (D18): a Streamable call with an SSE answer returns at the result; after Close,
     with everything quiescent, its response body is still held. -/
@@ -611,6 +639,16 @@ open Mcp.Gen.CallFacts in
 /-- (d) `Client.Close` and `StdioClient.Close` reach `transport.close()` under no condition but `transport != nil`. -/
 theorem C08_close_unguarded : ∀ c : Client, clTables.closeUnguarded.any (· = c) = true := by
   intro c; cases c <;> decide
+
+open Mcp.Gen.CallFacts in
+/-- (g) `retry.Execute` waits between two attempts in a select over the back-off timer and the caller's context; it never
+    sleeps.  Part of `selCtx` of every transport (`factsOf`). -/
+theorem C08_backoff_selects_ctx : clTables.backoffCtx = true := by decide
+
+open Mcp.Gen.CallFacts in
+/-- (f) `sendResponseToServer` (Streamable) and `sendResponseMessage` (legacy SSE) make the POST that carries the client's
+    answer to a request of the server with a context derived from the stream's context, which Close() cancels. -/
+theorem C08_answer_posts_bound : clTables.answerBound.any (· = .streamable) = true ∧ clTables.answerBound.any (· = .sse) = true := by decide
 
 open Mcp.Gen.CallFacts in
 /-- (e) The legacy SSE client's `start`: the stream request is bounded by the caller's context while it is being established
